@@ -7,6 +7,7 @@ from harness.impl_cds import impl_cds_op, enc_cds, enc_win
 from harness.impl_loc import enc_loc
 
 WARM_TWINS = {"quick": 0.008, "thorough": 0.03}     # engine: call-history twins (harness/warm.py)
+DECOY_TWINS = {"quick": 0.02, "thorough": 0.05}     # engine: decoy twins (harness/decoy.py)
 ID = "C05"
 LEAN_MODULE = "BioCantor.Props.C05"
 EXTRA_LEAN_MODULES = ["BioCantor.Props.C05Ties2", "BioCantor.Props.C05Ties3"]   # ties: regenerated construct_frames_from_location / frame-cleaning loop = hand model
